@@ -26,6 +26,7 @@ import E2P.Spec.FacadeSpec
 import E2P.Generated.Facade
 import E2P.Model.Graph
 import E2P.Model.Peg
+import E2P.Model.PegMemo
 import E2P.Generated.Grammar
 import E2P.Model.Quote
 import E2P.Model.Refs
@@ -534,6 +535,27 @@ def handlePeg (args : List String) : String :=
       s!"{m} | - | "
   | _ => "bad-op"
 
+/-! memoised token-set parser: `pm <fuel> <entry class> k₁ … kₙ` -> outcome of `AstBuilder.parse` with the memo table and the
+    number of `_get` executions -/
+def handlePegMemo (args : List String) : String :=
+  match args with
+  | fuel :: entry :: kinds =>
+    match fuel.toNat? with
+    | none => "bad-op"
+    | some fuel =>
+      let toks : List Tok := kinds.map fun k => (k, "")
+      let (r, calls) := astBuildM genGrammar fuel entry toks
+      let m := match r with
+        | .accept t => "A " ++ t.sexp
+        | .reject => "REJECT"
+        | .depth => "EUnmodelled"
+      let plain := match astBuild genGrammar fuel entry toks with
+        | .accept t => "A " ++ t.sexp
+        | .reject => "REJECT"
+        | .depth => "EUnmodelled"
+      s!"{m} #{calls} | {plain} | "
+  | _ => "bad-op"
+
 /-! lexer: `lx <S text>` (Lexer.parse), `lt <class> <S text>` (one class's `get`), `lp <S text>` (lex, then the token-set parser) -/
 def lexTable : List (String × Lex.Scanner) := Lex.table E2P.Generated.lexerOrder E2P.Generated.lexerRegexes
 
@@ -867,6 +889,7 @@ def handle (line : String) : String :=
   | "fc" :: rest => handleFacade rest
   | "gr" :: rest => handleGraph rest
   | "pg" :: rest => handlePeg rest
+  | "pm" :: rest => handlePegMemo rest
   | "qt" :: rest => handleQuote rest
   | "rf" :: rest => handleRefs rest
   | "sf" :: rest => handleSafety rest
